@@ -389,6 +389,22 @@ func (w *haltWorld) runAgg(cs M) (submit, res, msg, pre, post string) {
 			m.DenomUnits = nil
 		case "ibcnochannel":
 			m = md("ibc/27394FB092D2ECCD56123C74F36E4C1F926001CEADA9CA97EA622B25F41E5EB2")
+		case "again", "againfeweraliases", "againmorealiases":
+			// a second proposal for the same coin after a first one stored its bank metadata (the name differs from the base
+			// denomination, so the "already registered" test by name does not stop it): the metadata comparison runs
+			m.Name = "Coin acoin"
+			first := m
+			first.DenomUnits = []*banktypes.DenomUnit{{Denom: m.DenomUnits[0].Denom, Exponent: m.DenomUnits[0].Exponent, Aliases: []string{"a1"}}}
+			second := m
+			second.DenomUnits = []*banktypes.DenomUnit{{Denom: m.DenomUnits[0].Denom, Exponent: m.DenomUnits[0].Exponent, Aliases: []string{"a1"}}}
+			switch f {
+			case "againfeweraliases":
+				second.DenomUnits[0].Aliases = nil
+			case "againmorealiases":
+				second.DenomUnits[0].Aliases = []string{"a1", "a2"}
+			}
+			execIn(c, outer, aggtypes.NewRegisterCoinProposal("t", "d", first))
+			m = second
 		}
 		content = aggtypes.NewRegisterCoinProposal("t", "d", m)
 	case "AddCoin":
